@@ -810,9 +810,24 @@ def run_cases(chibicc, wd, name, cases):
             if r["code"] == "timeout" and attempt < 2:
                 continue            # a loaded machine, not a verdict: compile the same batch again
             bad = find_ccfail(chibicc, wd, sub)
+            if not bad and len(sub) > 8:
+                # no single case fails, the batch does (e.g. a compiler that damages its heap on one case and notices
+                # on a later one): run the batch in four parts, recursively
+                size = (len(live) + 3) // 4
+                for k in range(0, len(live), size):
+                    part = live[k:k + size]
+                    r2 = run_cases(chibicc, os.path.join(wd, "p%d" % (k // size)), name, [cases[i] for i in part])
+                    res["ccfail"] += [(part[i], stt, err) for i, stt, err in r2["ccfail"]]
+                    res["refrej"] += [part[i] for i in r2["refrej"]]
+                    res["crash"] += [part[i] for i in r2["crash"]]
+                    res["dis"].update({part[i]: v for i, v in r2["dis"].items()})
+                    res["viol"].update({part[i]: v for i, v in r2["viol"].items()})
+                    res["ccfail_batch"] += [([part[i] for i in idxs], stt, err) for idxs, stt, err in r2["ccfail_batch"]]
+                    res["ran"] += r2["ran"]
+                return res
             if not bad:
-                # no single case fails: narrow the batch to a minimal set of cases that fails together, report that set
-                # (when gcc accepts it) and go on with the rest of the batch
+                # at most 8 cases: narrow them to a minimal set that fails together, report that set (when gcc accepts
+                # it) and go on with the others
                 grp, stt, err = min_failing_subbatch(chibicc, wd, sub)
                 if grp is None:
                     raise core.HarnessError("chibicc fails on a batch once, but not again, and on none of its cases alone: %s" % r["stderr"][-500:])
